@@ -187,6 +187,7 @@ func (o *Once) Do(f func()) {
 	defer func() {
 		o.done = true
 		o.running = false
+		sched.Post("once", o)
 	}()
 	f()
 }
@@ -278,6 +279,7 @@ func (m *Map) Store(key, value interface{}) {
 		m.keys = append(m.keys, key)
 	}
 	m.m[key] = value
+	sched.Post("map-store", m)
 }
 
 func (m *Map) LoadOrStore(key, value interface{}) (interface{}, bool) {
@@ -288,6 +290,7 @@ func (m *Map) LoadOrStore(key, value interface{}) (interface{}, bool) {
 	}
 	m.keys = append(m.keys, key)
 	m.m[key] = value
+	sched.Post("map-store", m)
 	return value, false
 }
 
@@ -370,6 +373,7 @@ func (c *Cond) Signal() {
 		c.waiters[0].woken = true
 		c.waiters = c.waiters[1:]
 	}
+	sched.Post("cond-signal", c)
 }
 
 func (c *Cond) Broadcast() {
@@ -382,6 +386,7 @@ func (c *Cond) Broadcast() {
 		w.woken = true
 	}
 	c.waiters = nil
+	sched.Post("cond-broadcast", c)
 }
 
 // OnceFunc mirrors sync.OnceFunc.
